@@ -74,6 +74,44 @@ func TestGenCorpus(t *testing.T) {
 	)
 	os.WriteFile(dir+"/counter-boundaries.ops", []byte(strings.Join(cb, "\n")+"\n"), 0o644)
 
+	// a node submitted again in a second batch: the vector lists its key twice, it is still one member
+	var rk []string
+	oid := strings.Repeat("22", 32)
+	row1 := "ok." + k(1) + ",ok." + k(4)
+	vfy := func(row0 string) string {
+		return fmt.Sprintf("op - verify %s c0ffee %s sigs=%s/%s", m0, bad, row0, row1)
+	}
+	sub := func(row0 string) string {
+		return fmt.Sprintf("op - submit kind=map cid=%s oid=%s net=42 magic=42 size=10 del=- lock=- vubd=1 %s sigs=%s/%s", m0, oid, bad, row0, row1)
+	}
+	rk = append(rk, "# seeded C14-10: counted members remembered by roster POSITION instead of by key. Vector 0 = [A, B, A, C] (A submitted again",
+		"# in a second batch), vector 1 = [D, A], REP 2 and 2. Two signatures of the one node A (the same twice, a signature and its",
+		"# (r, n-s) twin, two signatures with different nonces) are ONE distinct member and must be refused; A + C is legal.",
+		caseLine("repeated-key-roster", "wf"),
+		fmt.Sprintf("op alpha add %s 0 %s,%s", m0, k(1), k(2)),
+		fmt.Sprintf("op alpha add %s 0 %s,%s", m0, k(1), k(3)),
+		fmt.Sprintf("op alpha add %s 1 %s,%s", m0, k(4), k(1)),
+		fmt.Sprintf("op alpha commit %s b:0202", m0),
+		fmt.Sprintf("op - nodes %s 0", m0),
+		vfy("ok."+k(1)+",ok."+k(1)),
+		vfy("ok."+k(1)+",mal."+k(1)),
+		vfy("ok."+k(1)+",ok2."+k(1)),
+		vfy("ok2."+k(1)+",mal."+k(1)),
+		vfy("ok."+k(1)+",ok."+k(3)),
+		vfy("ok."+k(1)+",ok."+k(1)+",ok."+k(3)),
+		sub("ok."+k(1)+",ok."+k(1)),
+		sub("ok."+k(1)+",mal."+k(1)),
+		sub("ok."+k(1)+",ok2."+k(1)),
+		sub("ok."+k(1)+",ok."+k(2)),
+		fmt.Sprintf("op - verify %s c0ffee %s sigs=ok.%s,ok.%s/ok.%s,ok2.%s", m0, bad, k(1), k(2), k(1), k(1)),
+		// REP 3 on the same vector: A, A', B is two members
+		fmt.Sprintf("op alpha add %s 0 %s,%s,%s,%s", m0, k(1), k(2), k(1), k(3)),
+		fmt.Sprintf("op alpha commit %s b:03", m0),
+		fmt.Sprintf("op - verify %s c0ffee %s sigs=ok.%s,mal.%s,ok.%s", m0, bad, k(1), k(1), k(2)),
+		fmt.Sprintf("op - verify %s c0ffee %s sigs=ok.%s,ok.%s,ok.%s", m0, bad, k(1), k(3), k(2)),
+	)
+	os.WriteFile(dir+"/repeated-key-roster.ops", []byte(strings.Join(rk, "\n")+"\n"), 0o644)
+
 	// outside the quantifier: vector number -1 is stored as vector byte 255 once vectors 0..254 exist
 	var neg []string
 	neg = append(neg, "# outside the property's quantifier (the vector number is a uint8): -1 passes `placementVector >= 255`, needs vector byte 254 and lands in vector byte 255;",
